@@ -1,7 +1,7 @@
 (** C02 — A process crash at any point leaves every cache directory valid and usable. (interim) *)
 From Coq Require Import List NArith ZArith String Bool.
 Import ListNotations.
-From Kismet Require Import FS.Fs FS.Prog Ops.Ops Conc.Pool Conc.Effect Conc.Immut.
+From Kismet Require Import FS.Fs FS.Prog Ops.Ops Ops.Client Spec.ClassMon Spec.Calm Conc.Pool Conc.Effect Conc.Immut Proofs.PoolLift Proofs.DebrisInTemp.
 (** A crash before the n-th call executes exactly the calls before it: the
     crashed run's trace is a prefix of the full run's trace. *)
 Theorem C02_crash_before_first_call : forall A (p : prog A) c k w o,
@@ -22,3 +22,32 @@ Theorem C02_crash_anywhere_keeps_published_contents :
   data (snd st1) i = Some D -> i < next_ino (snd st1) -> NoRW i (snd st1) ->
   data (snd (run_sched sched_after_crash st1)) i = Some D.
 Proof. exact @immutable_from_any_reachable_state. Qed.
+
+(** Whatever a participant has created when it stops - at ANY point of ANY
+    schedule, crashed, frozen or finished - was created inside a directory named
+    .kismet_temp (or anonymously in the system temp directory): debris can sit
+    nowhere else.  Stated for arbitrary environment responses and lifted to
+    pools; set / put / the temp-file variants create nothing at all. *)
+Theorem C02_debris_only_in_temp_directories : forall cfg k pop,
+  chko_tk (s_systmp cfg) (s_checker cfg) -> chko_calm (s_checker cfg) -> pop_tk (s_systmp cfg) pop ->
+  class_in_any_pool (tmp_ok (s_systmp cfg)) (ensure cfg k pop).
+Proof. intros. eapply allc_pool. apply tk_ensure; auto. Qed.
+
+Theorem C02_get_or_update_debris_only_in_temp_directories : forall cfg k j pop,
+  chko_tk (s_systmp cfg) (s_checker cfg) -> chko_calm (s_checker cfg) -> judge_tk (s_systmp cfg) j -> pop_tk (s_systmp cfg) pop ->
+  class_in_any_pool (tmp_ok (s_systmp cfg)) (get_or_update cfg k j pop).
+Proof. intros. eapply allc_pool. apply tk_get_or_update; auto. Qed.
+
+Theorem C02_writes_create_nothing : forall sys cfg k v,
+  class_in_any_pool (tmp_ok sys) (cache_set cfg k v) /\ class_in_any_pool (tmp_ok sys) (cache_put cfg k v).
+Proof. intros. split; eapply allc_pool; [apply tk_cache_set|apply tk_cache_put]. Qed.
+
+(** The populate callback of the harness satisfies the hypothesis. *)
+Theorem C02_harness_populate_admissible : forall sys pk, pop_tk sys (client_populate pk).
+Proof. exact client_populate_tk. Qed.
+
+(** What the class says. *)
+Theorem C02_class_meaning : forall sys p m d,
+  tmp_ok sys (CCreate p m) = has_temp p /\ tmp_ok sys (CCreateTrunc p m) = false /\
+  tmp_ok sys (COpenTmp d) = (has_temp d || path_eqb d sys)%bool.
+Proof. intros. repeat split. Qed.
